@@ -1021,6 +1021,7 @@ class Lazy:
 
 
 LAZY_MERGE = not os.environ.get('LLSYM_EAGER_MERGE')
+RELATIVE_JOINS = not os.environ.get('LLSYM_FULL_GUARD_JOINS')
 
 
 def lazy_ite(g, a, b, bits):
@@ -1207,10 +1208,23 @@ def enum_values(t, limit=64):
 
 # ----------------------------------------------------------------------------- executor
 class State:
-    __slots__ = ('g', 'env', 'mem')
+    """g: full path guard; path: the conjuncts it was built from, as (condition, cumulative guard) pairs.
+    Joins factor out the common prefix of the incoming paths and select by the *local* conditions only, so
+    that a diamond does not leave its branch history in every later guard and value."""
+    __slots__ = ('g', 'env', 'mem', 'path')
 
-    def __init__(self, g, env, mem):
-        self.g, self.env, self.mem = g, env, mem
+    def __init__(self, g, env, mem, path=()):
+        self.g, self.env, self.mem, self.path = g, env, mem, path
+
+
+def path_extend(path, g, cond):
+    """(new guard, new path) after additionally assuming cond"""
+    if cond is True:
+        return g, path
+    g2 = g_and(g, cond)
+    if g2 is False:
+        return False, path
+    return g2, path + ((cond, g2),)
 
 
 class Result:
@@ -1574,21 +1588,45 @@ class Exec:
         if len(states) == 1:
             return states[0]
         self.res.stats['merges'] += 1
-        g = False
-        for s in states:
-            g = g_or(g, s.g)
-        g = g_simpl(g)
+        # common prefix of the paths (identity of the cumulative guards)
+        p0 = states[0].path
+        lp = len(p0)
+        for s in states[1:]:
+            q = s.path
+            n = min(lp, len(q))
+            i = 0
+            while i < n and q[i][1] is p0[i][1]:
+                i += 1
+            lp = i
+        gp = p0[lp - 1][1] if lp > 0 else True
+        if RELATIVE_JOINS and all((len(s.path) > lp or s.g is gp) for s in states):
+            locs = []
+            for s in states:
+                l = True
+                for c, _ in s.path[lp:]:
+                    l = g_and(l, c)
+                locs.append(l)
+        else:
+            # a state whose guard is not described by its path: fall back to full guards
+            lp = 0
+            gp = True
+            locs = [s.g for s in states]
+        anyl = False
+        for l in locs:
+            anyl = g_or(anyl, l)
+        anyl = g_simpl(anyl)
+        g, path = path_extend(states[0].path[:lp], gp, anyl)
         base = states[0]
         env = dict(base.env)
         mem = base.mem.fork()
-        for s in states[1:]:
+        for s, sel in zip(states[1:], locs[1:]):
             # env
             for k, v in s.env.items():
                 if k in env:
                     o = env[k]
                     if o is v or (is_c(o) and is_c(v) and o == v):
                         continue
-                    env[k] = lazy_ite(s.g, v, o, (rbits or {}).get(k))
+                    env[k] = lazy_ite(sel, v, o, (rbits or {}).get(k))
                 else:
                     env[k] = v
             # memory
@@ -1603,10 +1641,10 @@ class Exec:
                     w = mem.wobj(oid)
                     if MERGE_STATS is not None:
                         n0 = sx._CNT[0]
-                    w.b = merge_cells(s.g, ob.b, w.b)
+                    w.b = merge_cells(sel, ob.b, w.b)
                     if MERGE_STATS is not None:
                         MERGE_STATS[ob.name] = MERGE_STATS.get(ob.name, 0) + sx._CNT[0] - n0
-        return State(g, env, mem)
+        return State(g, env, mem, path)
 
     # ---- CFG helpers
     def loops_of(self, f):
@@ -1704,7 +1742,7 @@ class Exec:
             env[name] = a
         succ, rpo, idx, preds, loops = self.loops_of(f)
         entry = f.order[0]
-        st0 = State(st_in.g, env, st_in.mem)
+        st0 = State(st_in.g, env, st_in.mem, st_in.path)
         rets = []
         self.frames.append([])
         self.exec_region(f, set(rpo), entry, {entry: [st0]}, rets, None, loops, idx)
@@ -1712,11 +1750,11 @@ class Exec:
         if dead and self.depth > 1 and not os.environ.get('LLSYM_NO_FRAMES'):
             # the callee's stack slots die with the call: drop them so that later joins do not merge them
             out = []
-            for g, v, mem in rets:
+            for g, v, mem, pth in rets:
                 m2 = mem.fork()
                 for oid in dead:
                     m2.objs.pop(oid, None)
-                out.append((g, v, m2))
+                out.append((g, v, m2, pth))
             rets = out
         self.depth -= 1
         return rets
@@ -1794,7 +1832,7 @@ class Exec:
 
     def edge_state(self, f, src, tgt, st, g):
         """apply phi assignments of tgt for edge src->tgt"""
-        g2 = g_simpl(g_and(st.g, g))
+        g2, path2 = path_extend(st.path, st.g, g)
         if g2 is not False and g2 is not True and st.g is not True and g is not True and sx.contradicts(st.g, g):
             g2 = False
         if g2 is False:
@@ -1817,13 +1855,13 @@ class Exec:
         if new:
             env = dict(env)
             env.update(new)
-        return State(g2, env, st.mem)
+        return State(g2, env, st.mem, path2)
 
     def exec_block(self, f, label, st, rets):
         self.res.stats['blocks'] += 1
         env = dict(st.env)
         mem = st.mem.fork()
-        st = State(st.g, env, mem)
+        st = State(st.g, env, mem, st.path)
         blk = f.blocks[label]
         for ins in blk:
             op = ins.op
@@ -1862,7 +1900,7 @@ class Exec:
                     outs.append((tgt, self.edge_state(f, label, tgt, st, g)))
                 return outs
             if kind == 'ret':
-                rets.append((st.g, r[1], st.mem))
+                rets.append((st.g, r[1], st.mem, st.path))
                 return []
             if kind == 'stop':
                 return []
@@ -2048,14 +2086,16 @@ class Exec:
                 name = self.mod.aliases.get(name, name)
                 if name not in self.mod.funcs:
                     raise Unsupported('indirect call to external %s' % name)
-                sub = State(gg, None, st.mem.fork())
-                for rg, rv, rmem in self.run_function(self.mod.funcs[name], argv, sub):
-                    states.append(State(rg, {'__ret': rv} if rv is not None else {}, rmem))
+                gg2, pth2 = path_extend(st.path, g0, g)
+                sub = State(gg2, None, st.mem.fork(), pth2)
+                for rg, rv, rmem, rpth in self.run_function(self.mod.funcs[name], argv, sub):
+                    states.append(State(rg, {'__ret': rv} if rv is not None else {}, rmem, rpth))
             if not states:
                 st.g = False
                 return ('stop',)
             m = self.merge_states(states, {'__ret': getattr(rty(rt), 'bits', None) if not isinstance(rt, VoidTy) else None})
             st.g = m.g
+            st.path = m.path
             st.mem.objs = m.mem.objs
             st.mem.owned = set()
             if ins.res is not None:
@@ -2072,7 +2112,7 @@ class Exec:
         if name in self.mod.funcs:
             callee_f = self.mod.funcs[name]
             rets = []
-            sub = State(st.g, None, st.mem)
+            sub = State(st.g, None, st.mem, st.path)
             rets = self.run_function(callee_f, argv, sub)
             if not rets:
                 # callee never returns on any path (panic)
@@ -2080,11 +2120,12 @@ class Exec:
                 return ('stop',)
             # merge return states
             states = []
-            for g, v, mem in rets:
+            for g, v, mem, pth in rets:
                 e = {'__ret': v} if v is not None else {}
-                states.append(State(g, e, mem))
+                states.append(State(g, e, mem, pth))
             m = self.merge_states(states, {'__ret': getattr(rty(rt), 'bits', None) if not isinstance(rt, VoidTy) else None})
             st.g = m.g
+            st.path = m.path
             st.mem.objs = m.mem.objs
             st.mem.owned = set()
             if ins.res is not None:
@@ -2334,7 +2375,7 @@ def run_concrete(path, fname, data, nbytes, unwind=64):
     """concrete-mode execution of the same interpreter: returns int return value or 'panic'/'bound'"""
     mod = load_module(path)
     ex, inp, rets = run_entry(mod, '@' + fname, nbytes, unwind=unwind, concrete=data)
-    for g, v, _ in rets:
+    for g, v, _, _p in rets:
         if g is True:
             return v
     for g, m in ex.res.bounds:
@@ -2359,7 +2400,7 @@ def analyze(path, fname, nbytes=96, unwind=8, timeout_s=600, covers=(), extra_qu
         sys.stderr.write('symex done %.2fs stats %s nodes %d feas %s\n' % (t2 - t1, ex.res.stats, sx._CNT[0], FEAS_STATS))
     retv = None
     retg = False
-    for g, v, _ in rets:
+    for g, v, _, _p in rets:
         retv = v if retv is None else ite(g, v, retv, 8)
         retg = g_or(retg, g)
 
